@@ -71,8 +71,9 @@ class ClientEdits(c05.CacheHistory):
     name = "clientedits"
     rule = ("C05-style lock-step histories (mutators, flag toggles, neighbors() queries over few keys) in which the client "
             "additionally edits lists that earlier neighbors() calls returned (append / clear / pop / reverse / item assignment / "
-            "extend); the by-value model ignores the edits, so any retained alias shows as a disagreement, and every answer is also "
-            "compared with the uncached recomputation; non-trivial = an edited list's (vertex, key) is queried again with caching on")
+            "extend); the same history is run again with the edits erased and every later answer and snapshot must coincide (the "
+            "statement of MemoAliasProofs.answers_independent_of_client_edits, on the implementation); non-trivial = an edited "
+            "list's (vertex, key) is queried again with caching on")
     quick_n = 300
     thorough_n = 8000
 
@@ -93,26 +94,44 @@ class ClientEdits(c05.CacheHistory):
                             qidx.append(len(ops) - 1)
             yield {"ops": ops}
 
+    imports = "From EG Require Import Base."
+    checkfn = "(fun b : bool => b)"
+    case_type = "bool"
+
     def observe(self, case):
+        """the history as generated (with the client's edits) and the same history with the edits erased"""
         try:
-            return execute_cm(case["ops"])
+            with_edits = execute_cm(case["ops"])
+            erased = execute_cm([op if op[0] != "CMUT" else ["CMUT", -1, "none"] for op in case["ops"]])
         except H.CaseInvalid:
             return None
+        return {"with": with_edits, "erased": erased}
+
+    def oracle(self, case, obs):
+        # C12 itself: editing a container handed out earlier changes no later answer and no part of the graph.
+        # (Whether the answers are the RIGHT ones is C05's business: a stale memo is stale in both runs.)
+        if obs is None:
+            return []
+        for i, (op, a, b) in enumerate(zip(case["ops"], obs["with"], obs["erased"])):
+            if op[0] == "QNB" and a["out"] != b["out"]:
+                return [f"step {i} {op} answered {a['out']} after the client edited a list it had been handed; the same history without "
+                        f"the edits answers {b['out']}"]
+            if a["snap"] != b["snap"]:
+                return [f"step {i} {op}: the graph differs from the run without client edits"]
+        return []
 
     def term(self, case, obs):
-        if obs is None:
-            return None
-        items = []
-        for op, r in zip(case["ops"], obs):
-            if op[0] == "CMUT":
-                continue
-            out = r["out"]
-            co = H.c_outcome(out) if out[0] != "list" else f"Ret (VList {H.c_oids(out[1])})"
-            items.append(f"({c05.c_cop(op)}, ({co}, {H.c_state(r['snap'])}))")
-        return C.clist(items, str)
+        return None if obs is None else "true"
 
     def model_value(self, case, obs):
-        return "ctranscript empty " + C.clist([c05.c_cop(o) for o in case["ops"] if o[0] != "CMUT"], str)
+        return None
+
+    def stats(self, case, obs, acc):
+        if obs is None:
+            return
+        for op in case["ops"]:
+            acc.setdefault("ops", {})
+            acc["ops"][op[0]] = acc["ops"].get(op[0], 0) + 1
 
     def nontrivial(self, case, obs):
         if obs is None:
@@ -122,7 +141,7 @@ class ClientEdits(c05.CacheHistory):
         for i, op in enumerate(ops):
             if op[0] == "CMUT" and op[1] < len(ops):
                 edited.add(tuple(ops[op[1]][1:]))
-            elif op[0] == "QNB" and tuple(op[1:]) in edited and obs[i]["flag"]:
+            elif op[0] == "QNB" and tuple(op[1:]) in edited and obs["with"][i]["flag"]:
                 return True
         return False
 
